@@ -26,10 +26,13 @@ def jobs(tier, seed):
             for log in ([True] if rel == 'eq' else [True, False]):
                 b = 1 if (rel == 'ne' and not log) else 2
                 add('single/%s/log=%d/n2/dense/B%d' % (rel, log, b), 'make_single', dict(rel=rel, B=b, log=log, bmode='none', n=2, shape='dense'), 200)
-        for rel in ['le', 'ge', 'ne']:
+        for rel in ['le', 'ge', 'ne', 'eq']:
             add('single/%s/log=1/n3/lin+pair/B1' % rel, 'make_single', dict(rel=rel, B=1, log=True, bmode='none', n=3, shape='lin+pair'), 200)
         for rel, seq in [('le', ['ne_diff']), ('ne', ['le_sum']), ('gt', ['eq_diff']), ('eq', ['lt_pair'])]:
             add('seq/%s+%s/B1' % (rel, '+'.join(seq)), 'make_sequence', dict(rel=rel, B=1, log=True, seq=seq), 200)
+        # a second constraint that takes the unary-slack (log_trick=False) special forms on a model that already owns ancillas
+        for rel, seq in [('lt', ['le_sum_nolog']), ('ge', ['gt_lin']), ('le', ['ne_nolog'])]:
+            add('seq/%s+%s/B1/nolog' % (rel, '+'.join(seq)), 'make_sequence', dict(rel=rel, B=1, log=False, seq=seq), 200)
     else:
         for rel in RELS:
             for log in ([True] if rel == 'eq' else [True, False]):
@@ -45,3 +48,9 @@ def jobs(tier, seed):
                     add('seq/%s+%s/B2' % (rel, m), 'make_sequence', dict(rel=rel, B=2, log=True, seq=[m]), 1500)
             add('seq/%s+%s+%s/B1' % (rel, menu[i], menu[(i + 3) % 8]), 'make_sequence', dict(rel=rel, B=1, log=bool(i % 2), seq=[menu[i], menu[(i + 3) % 8]]), 1500)
     return J
+
+
+def post(results, tier, seed):
+    """label-symbolic CrossHair lemmas on the real helper functions (auxiliary layer, see DESIGN.md 2.3)"""
+    from ..lemmas.run import as_extra
+    return as_extra('keys', ['lemma_num_bits_log', 'lemma_num_bits_nolog'], 'C02', timeout=20 if tier == 'quick' else 60)
